@@ -7,7 +7,9 @@
   The allowances (everything else is conserved or destroyed):
   * batch level (`batchIssuance`, Props/C01.lean): faucet outputs and fee, a transaction's own new token, minted ERG;
   * builtin pools created on first use, or afresh once they record no liquidity: 10^9 of each side, nobody-owned
-    (`C01_builtins`);
+    (`C01_builtins`, sharp: `C01_builtins_sharp` / `builtinsCreated`). Since the `fix:` for finding F24 there are TWO
+    creation points per seal: before the settlement (`builtinsCreated s`) and again after the withdrawal phase, for
+    a builtin pool this block's withdrawals emptied (`recreated env s = builtinsCreated (settled env s)`);
   * the peg adjustment of the MEL/SYM pool: at most 1/throttler of the gap to the desired reserve, on ONE side per
     step (`pegAllowance`);
   * the TIP-909 subsidy: SYM only, 2^SUBSIDY_LOG2 halving every SUBSIDY_HALVING blocks (`C01_subsidy`);
@@ -19,6 +21,7 @@ import MelModel.SupplyDefs
 import MelModel.Props.C01
 import MelModel.Props.C01Seal
 import MelModel.Lemmas.WholeL
+import MelModel.Props.C16
 namespace Mel
 open Mel.Gen
 
@@ -48,9 +51,15 @@ theorem C01_pegging_step (sm sm' : PoolState) (delta throttler lw rw : Nat)
     sm'.lefts ≤ sm.lefts + delta / throttler ∧ sm'.rights ≤ sm.rights := by
   exact WholeL.swapLeft_le h
 
-/-- what sealing may add to the supply of `d`, for a state `s` about to be sealed -/
+/-- what the second `create_builtins` of a seal (after the withdrawal phase, `fix:` for finding F24) creates of `d`:
+    the default reserves of each builtin pool that this block's settlement left absent or without liquidity -/
+def recreated (env : Env) (s : State) (d : Denom) : Nat := builtinsCreated (settled env s) d
+
+/-- what sealing may add to the supply of `d`, for a state `s` about to be sealed. CHANGED with the `fix:` for finding
+    F24: the builtin-pool term occurs twice — once for the pools `create_builtins` makes before the settlement, once
+    for those it makes again after the withdrawal phase (sharp amounts: `C01_seal_whole_sharp`) -/
 def sealAllowance (s : State) (d : Denom) : Nat :=
-  3 * (2 * (MICRO_CONVERTER * BUILTIN_LIQ_MULT)) +
+  3 * (2 * (MICRO_CONVERTER * BUILTIN_LIQ_MULT)) + 3 * (2 * (MICRO_CONVERTER * BUILTIN_LIQ_MULT)) +
   (if d = .mel ∨ d = .sym then U128_MAX / (if s.tip902 then THROTTLER_902 else THROTTLER_PRE) else 0) +
   (if d = .sym ∧ s.tip909 = true then 2 ^ SUBSIDY_LOG2 / 2 ^ ((s.height - TIP_909_HEIGHT) / SUBSIDY_HALVING) else 0)
 
@@ -64,9 +73,33 @@ theorem C01_seal_whole (env : Env) (s : State) (a : Option ProposerAction) (ss :
     supply ss.st d ≤ supply s d + sealAllowance s d := by
   have h1 := WholeL.seal_sharp env s a ss h hp hl hfresh d hd
   have h2 := (C01_builtins s d hp.poolKeys).1
+  have h3 : WholeL.recreatedPart env s d ≤ 3 * (2 * (MICRO_CONVERTER * BUILTIN_LIQ_MULT)) :=
+    Nat.le_trans (builtinsCreated_le _ d) (by omega)
   rw [WholeL.midPart_eq] at h1
   unfold sealAllowance
   omega
+
+/-- the same with the two builtin-pool terms exact: what the first `create_builtins` makes (`builtinsCreated s d`),
+    what the second one makes after the withdrawal phase (`recreated env s d`), the peg adjustment, the subsidy -/
+theorem C01_seal_whole_sharp (env : Env) (s : State) (a : Option ProposerAction) (ss : Sealed)
+    (h : sealState env s a = .ok ss) (hp : SealPre s) (hl : legacyDeposit s = false)
+    (hfresh : s.coins.getCoin { txhash := env.rewardId s.height, index := 0 } = none)
+    (d : Denom) (hd : ∀ k : PoolKey, d ≠ liqTokenDenom env k) :
+    supply ss.st d ≤ supply s d + builtinsCreated s d + recreated env s d +
+      (if d = .mel ∨ d = .sym then U128_MAX / (if s.tip902 then THROTTLER_902 else THROTTLER_PRE) else 0) +
+      (if d = .sym ∧ s.tip909 = true then
+        2 ^ SUBSIDY_LOG2 / 2 ^ ((s.height - TIP_909_HEIGHT) / SUBSIDY_HALVING) else 0) := by
+  have h1 := WholeL.seal_sharp env s a ss h hp hl hfresh d hd
+  have h2 := C01_builtins_sharp s d hp.poolKeys
+  rw [WholeL.midPart_eq] at h1
+  unfold recreated
+  unfold WholeL.recreatedPart at h1
+  omega
+
+/-- each of the two creation terms is at most `2 · 10^9` (a denomination sits on one side of two builtin pools), and
+    zero for every denomination other than MEL, SYM, ERG -/
+theorem C01_recreated_le (env : Env) (s : State) (d : Denom) :
+    recreated env s d ≤ 2 * (MICRO_CONVERTER * BUILTIN_LIQ_MULT) := builtinsCreated_le _ d
 
 /-- **conservation across a whole block**: one batch, the seal, the opening of the next block -/
 theorem C01_block_whole (env : Env) (s s₁ s₂ : State) (txs : List Tx) (fb : Header) (a : Option ProposerAction)
@@ -84,8 +117,12 @@ theorem C01_block_whole (env : Env) (s s₁ s₂ : State) (txs : List Tx) (fb : 
 
 /-- in particular: a block without faucet / mint / new-token transactions on a chain where the builtin pools
     exist and record liquidity (an emptied builtin pool is created afresh since the `fix:` for F23, which adds its
-    nobody-owned 10^9 of each side), for a denomination other than MEL, SYM and liquidity tokens, creates nothing at
-    all -/
+    nobody-owned 10^9 of each side), for a denomination other than MEL, SYM and liquidity tokens, creates nothing
+    but `recreated env s₁ d`: the default reserves of a builtin pool that this very block's withdrawals emptied and
+    the second `create_builtins` made afresh.
+    RESTATED with the `fix:` for finding F24 (the former conclusion `supply s₂ d ≤ supply s d` is false now: a block
+    that redeems the whole liquidity of the ERG/SYM pool pays its reserves out AND gets a fresh pool, 10^9 ERG more);
+    `C01_block_closed_kept` below is the former statement under the extra hypothesis that no builtin pool is emptied -/
 theorem C01_block_closed (env : Env) (s s₁ s₂ : State) (txs : List Tx) (fb : Header) (a : Option ProposerAction)
     (ss : Sealed)
     (hb : applyBatch env s txs fb = .ok s₁) (hs : sealState env s₁ a = .ok ss)
@@ -95,12 +132,51 @@ theorem C01_block_closed (env : Env) (s s₁ s₂ : State) (txs : List Tx) (fb :
     (hc : ∀ tx ∈ txs, tx.kind ≠ .faucet ∧ tx.kind ≠ .doscMint ∧ ∀ o ∈ tx.outputs, o.denom ≠ .newCustom)
     (hbuilt : ∀ k ∈ [poolMelSym, poolMelErg, poolErgSym], ∃ p, s₁.pools.get k = some p ∧ p.liqs ≠ 0)
     (d : Denom) (hd : ∀ k : PoolKey, d ≠ liqTokenDenom env k) (hmel : d ≠ .mel) (hsym : d ≠ .sym) :
-    supply s₂ d ≤ supply s d := by
+    supply s₂ d ≤ supply s d + recreated env s₁ d := by
   have h1 := C01_apply_closed env s s₁ txs fb hb hk hc d
   have h2 := WholeL.seal_sharp env s₁ a ss hs hp hl hfresh d hd
   rw [WholeL.createBuiltins_noop s₁ hbuilt, WholeL.midPart_zero s₁ d hmel hsym] at h2
   rw [WholeL.nextUnsealed_supply env ss s₂ hn d]
+  unfold recreated
+  unfold WholeL.recreatedPart at h2
   omega
+
+/-- the former `C01_block_closed`: when moreover the settlement of the block leaves the builtin pools with liquidity
+    (no withdrawal of this block redeems a builtin pool's whole liquidity), nothing at all is created -/
+theorem C01_block_closed_kept (env : Env) (s s₁ s₂ : State) (txs : List Tx) (fb : Header) (a : Option ProposerAction)
+    (ss : Sealed)
+    (hb : applyBatch env s txs fb = .ok s₁) (hs : sealState env s₁ a = .ok ss)
+    (hn : nextUnsealed env ss = .ok s₂)
+    (hk : (s.coins.coins.map (·.1)).Nodup) (hp : SealPre s₁) (hl : legacyDeposit s₁ = false)
+    (hfresh : s₁.coins.getCoin { txhash := env.rewardId s₁.height, index := 0 } = none)
+    (hc : ∀ tx ∈ txs, tx.kind ≠ .faucet ∧ tx.kind ≠ .doscMint ∧ ∀ o ∈ tx.outputs, o.denom ≠ .newCustom)
+    (hbuilt : ∀ k ∈ [poolMelSym, poolMelErg, poolErgSym], ∃ p, s₁.pools.get k = some p ∧ p.liqs ≠ 0)
+    (hkept : ∀ k ∈ [poolMelSym, poolMelErg, poolErgSym], ∃ p, (settled env s₁).pools.get k = some p ∧ p.liqs ≠ 0)
+    (d : Denom) (hd : ∀ k : PoolKey, d ≠ liqTokenDenom env k) (hmel : d ≠ .mel) (hsym : d ≠ .sym) :
+    supply s₂ d ≤ supply s d := by
+  have h := C01_block_closed env s s₁ s₂ txs fb a ss hb hs hn hk hp hl hfresh hc hbuilt d hd hmel hsym
+  unfold recreated at h
+  rw [builtinsCreated_zero _ d hkept] at h
+  exact h
+
+/-- why the second creation term cannot be dropped (and why the former conclusion of `C01_block_closed` is false since
+    the `fix:` for finding F24): sealing `drainedErgSymState` (Props/C16.lean — all three builtin pools exist with
+    liquidity, the block redeems the ERG/SYM pool's whole liquidity) leaves MORE ERG than before: the 5000 ERG of the
+    old pool are paid out to the withdrawer and a fresh pool with 10^9 ERG is made; `recreated` is exactly that 10^9 -/
+theorem C01_recreation_witness :
+    ∃ ss, sealState drainEnv (drainedErgSymState drainEnv) none = .ok ss ∧
+      supply (drainedErgSymState drainEnv) .erg = 1000005000 ∧ supply ss.st .erg = 2000000925 ∧
+      builtinsCreated (drainedErgSymState drainEnv) .erg = 0 ∧
+      recreated drainEnv (drainedErgSymState drainEnv) .erg = 1000000000 := by
+  have hv : (match sealState drainEnv (drainedErgSymState drainEnv) none with
+      | .ok ss => decide (supply (drainedErgSymState drainEnv) .erg = 1000005000 ∧ supply ss.st .erg = 2000000925 ∧
+          builtinsCreated (drainedErgSymState drainEnv) .erg = 0 ∧
+          recreated drainEnv (drainedErgSymState drainEnv) .erg = 1000000000)
+      | _ => false) = true := by decide +kernel
+  cases hs : sealState drainEnv (drainedErgSymState drainEnv) none with
+  | ok ss => rw [hs] at hv; exact ⟨ss, rfl, of_decide_eq_true hv⟩
+  | reject e => rw [hs] at hv; cases hv
+  | crash c => rw [hs] at hv; cases hv
 
 /-- the proposer reward is paid out of the fee pool and the tips: sealing with an action and sealing without one
     end with the same total supply of every denomination -/
@@ -134,7 +210,11 @@ end Mel
 #print axioms Mel.C01_pegging_bounded
 #print axioms Mel.C01_pegging_step
 #print axioms Mel.C01_seal_whole
+#print axioms Mel.C01_seal_whole_sharp
+#print axioms Mel.C01_recreated_le
 #print axioms Mel.C01_block_whole
 #print axioms Mel.C01_block_closed
+#print axioms Mel.C01_block_closed_kept
+#print axioms Mel.C01_recreation_witness
 #print axioms Mel.C01_action_neutral
 #print axioms Mel.C01_seal_whole_nonvacuous
